@@ -277,19 +277,28 @@ def random_arch(rng: random.Random, *, dim: int, max_nodes: int, widths=(2, 3, 4
 
 
 def rejected_fusion(arch) -> bool:
-    """FeatGraph!RejectedFusion: a standalone BatchNorm directly after a searchable layer whose output has another
-    user (plinio raises a ValueError for it), or after a layer object with several call sites."""
+    """FeatGraph!RejectedFusion \\/ DoubleFusion: a standalone BatchNorm that the conversion fuses into a searchable layer
+    (directly or behind another fused BatchNorm) while its input has another user (plinio raises a ValueError), or after
+    a layer object with several call sites, or a second BatchNorm in a row (finding F73, C07's matter)."""
     nodes = arch["nodes"]
+
+    def fused(i):
+        n = nodes[i - 1]
+        if n["op"] != "bns" or n["ins"][0] == 0:
+            return False
+        pn = nodes[n["ins"][0] - 1]
+        return (pn["op"] in ("conv", "lin") and not pn.get("excl")) or fused(n["ins"][0])
+
     for i, n in enumerate(nodes, start=1):
-        if n["op"] != "bns":
+        if not fused(i):
             continue
         p = n["ins"][0]
-        if p == 0:
-            continue
         pn = nodes[p - 1]
-        if pn["op"] in ("conv", "lin") and not pn.get("excl"):
-            if any(j != i and p in m["ins"] for j, m in enumerate(nodes, start=1)):
-                return True
+        if pn["op"] == "bns":
+            return True
+        if any(j != i and p in m["ins"] for j, m in enumerate(nodes, start=1)):
+            return True
+        if pn["op"] in ("conv", "lin"):
             own = pn.get("reuse") or p
             if sum(1 for m in nodes if m["op"] in ("conv", "lin") and (m.get("reuse") or 0) == own) > 0:
                 return True
